@@ -341,6 +341,7 @@ main(void)
 	char       *tok[8];
 	nng_init_params prm;
 	main_thr = pthread_self();
+	setvbuf(stdout, NULL, _IOLBF, 0); // a crash must not take the lines of earlier ops with it
 	memset(&prm, 0, sizeof(prm));
 	prm.num_task_threads = prm.max_task_threads = 2;
 	prm.num_expire_threads = prm.max_expire_threads = 1;
